@@ -177,6 +177,12 @@ func vfH_dial_logic() {
 	if tier >= 1 {
 		d2 = vfChoose(14)
 	}
+	if f := vfParam("dim2", -1); f >= 0 {
+		d2 = f
+	}
+	if d2 == d1 {
+		d2 = 99 // the same dimension twice is the single-dimension case
+	}
 	for _, dim := range []int{d1, d2} {
 		switch dim {
 		case 0: // URL shapes
@@ -239,7 +245,11 @@ func vfH_dial_logic() {
 				in.hookCtx = false // library default dialer
 			}
 		case 4: // proxy
-			in.proxy = 1 + vfChoose(2)
+			if f := vfParam("proxy", 0); f > 0 {
+				in.proxy = f
+			} else {
+				in.proxy = 1 + vfChoose(3) // http, https, socks5
+			}
 			in.proxyCred = vfChoose(3)
 			if vfChoose(2) == 1 {
 				in.scheme = "wss"
@@ -424,6 +434,10 @@ func vfH_dial_logic() {
 			purl.Scheme = "https"
 			purl.Host = "secure-proxy.example"
 		}
+		if in.proxy == 3 {
+			purl.Scheme = "socks5"
+			purl.Host = "socks.example"
+		}
 		switch in.proxyCred {
 		case 1:
 			purl.User = vfUserOnly
@@ -431,10 +445,18 @@ func vfH_dial_logic() {
 			purl.User = vfUserPw
 		}
 		in.d.Proxy = func(*http.Request) (*url.URL, error) { return purl, nil }
-		// the proxy answers the CONNECT with 200
-		ph := []byte("HTTP/1.1 200 Connection established\r\n\r\n")
-		vfRespQueue = append(vfRespQueue, &vfRespSpec{status: "200 Connection established", statusCode: 200, header: http.Header{}, headLen: len(ph)})
-		tc.in = append(tc.in, ph...)
+		if in.proxy == 3 {
+			// the SOCKS5 proxy selects "no authentication" and grants the CONNECT
+			vfUseRealPkg("golang.org/x/net/proxy")
+			vfSchedBound(0) // x/net's context-watcher goroutine: non-preemptive
+			vfUseRealPkg("golang.org/x/net/internal/socks")
+			tc.in = append(tc.in, 5, 0, 5, 0, 0, 1, 0, 0, 0, 0, 0, 0)
+		} else {
+			// the proxy answers the CONNECT with 200
+			ph := []byte("HTTP/1.1 200 Connection established\r\n\r\n")
+			vfRespQueue = append(vfRespQueue, &vfRespSpec{status: "200 Connection established", statusCode: 200, header: http.Header{}, headLen: len(ph)})
+			tc.in = append(tc.in, ph...)
+		}
 		tc.cut = len(tc.in)
 	}
 	_ = ptc
@@ -522,20 +544,27 @@ func vfH_dial_logic() {
 	}
 	tlsByLib := in.scheme == "wss" && !(in.hookTLS && in.proxy == 0)
 	tlsOK := !tlsByLib || skipVerify || (in.certTrusted && certName == expectName)
+	// an https proxy's certificate is verified for the configured ServerName too
+	proxyTLSOK := !(in.proxy == 2 && !in.hookTLS) || skipVerify || cfgServerName == "" || cfgServerName == "secure-proxy.example"
+	tlsOK = tlsOK && proxyTLSOK
 	// the TLS peers the dial will meet, in order
 	var hops []vfHop
-	if in.proxy == 2 {
+	if in.proxy == 2 && !in.hookTLS {
+		// (with NetDialTLSContext the application's function does the TLS handshake with the proxy)
 		vfTLSPeers = append(vfTLSPeers, vfTLSPeer{certName: "secure-proxy.example", trusted: true})
 		hops = append(hops, vfHop{tls: true, name: "secure-proxy.example", trusted: true})
 	}
-	if in.proxy > 0 {
+	if in.proxy == 1 || in.proxy == 2 {
 		hops = append(hops, vfHop{connect: true})
+	}
+	if in.proxy == 3 {
+		hops = append(hops, vfHop{socks: true})
 	}
 	if tlsByLib {
 		vfTLSPeers = append(vfTLSPeers, vfTLSPeer{certName: certName, trusted: in.certTrusted})
 		hops = append(hops, vfHop{tls: true, name: certName, trusted: in.certTrusted})
 	}
-	usesTLS := in.proxy == 2 || tlsByLib
+	usesTLS := (in.proxy == 2 && !in.hookTLS) || tlsByLib
 	if !vfSymbolic() && usesTLS && in.d.TLSClientConfig != nil {
 		// native replay: a real TLS peer behind a pipe
 		nativeTLS = true
@@ -591,7 +620,10 @@ func vfH_dial_logic() {
 		tc.ops, tc.closed, tc.in, tc.rpos, tc.cut, tc.rerr, tc.nwops = nil, 0, nil, 0, 0, nil, 0
 	}
 
+	timed := in.d.HandshakeTimeout > 0 || in.ctx.hasDeadline
+	tc.trackDL = timed
 	c, resp, err := in.d.DialContext(in.ctx, in.urlStr, callerHdr)
+	tc.trackDL = false
 
 	vfOnRequest = nil
 	// ---- verdicts ----
@@ -764,6 +796,15 @@ func vfH_dial_logic() {
 		}
 		vfReach("dial-refused")
 	}
+	// ---- C16: when a deadline applies, every transport operation of the handshake runs under one ----
+	if timed && !nativeTLS {
+		for _, t := range tc.dlAtOp {
+			vfAssert(!t.IsZero(), "c16-every-handshake-transport-op-under-a-deadline")
+			if in.ctx.hasDeadline {
+				vfAssert(!t.After(in.ctx.deadline), "c16-deadline-no-later-than-context")
+			}
+		}
+	}
 	// ---- C16: when a deadline applies, it is set on the connection before its first Read/Write ----
 	if (in.d.HandshakeTimeout > 0 || in.ctx.hasDeadline) && len(tc.ops) > 0 {
 		first := -1
@@ -794,6 +835,8 @@ func vfH_dial_logic() {
 			wantFirst = "proxy.example:3128"
 		} else if in.proxy == 2 {
 			wantFirst = "secure-proxy.example:443"
+		} else if in.proxy == 3 {
+			wantFirst = "socks.example:1080"
 		}
 		if len(dials) > 0 {
 			vfAssert(dials[0] == wantFirst, "c18-first-hop-address")
@@ -808,7 +851,24 @@ func vfH_dial_logic() {
 			}
 			vfAssert(hookUsed == wantHook && len(dials) == 1, "c18-first-hop-uses-applicable-dial-function")
 		}
-		if in.proxy > 0 && !in.dialFail {
+		if in.proxy == 3 && !in.dialFail {
+			// SOCKS5: the proxy connection carries the RFC 1928 negotiation for the
+			// backend's host and port before anything else
+			greet := []byte{5, 1, 0}
+			if in.proxyCred > 0 {
+				greet = []byte{5, 2, 0, 2}
+			}
+			want := append(greet, specSocksRequest(vfSocksTargetOf(vfHostPort(in.host, in.scheme)))...)
+			w := tc.wire()
+			k := len(want)
+			if tc.wfailed && len(w) < k {
+				k = len(w)
+			}
+			vfAssert(len(w) >= k && vfAllEq(w[:k], want[:k]), "c18-socks-connect-target-is-backend-hostport")
+			vfAssert(nconnect == 0, "c18-no-http-connect-through-socks")
+		} else if in.proxy > 0 && !in.dialFail && !proxyTLSOK {
+			vfAssert(nconnect == 0, "c18-no-connect-to-an-unverified-proxy")
+		} else if in.proxy > 0 && !in.dialFail {
 			vfAssert(nconnect == 1, "c18-exactly-one-connect")
 			for _, rr := range vfReqLog {
 				if rr.req.Method == "CONNECT" {
